@@ -22,20 +22,20 @@ def plan(pid, tier, seed):
         ]
     else:
         mc = [
-            {"module": "Cloc", "cfg": "Cloc_MC_quick.cfg", "emit": True, "sample": 4000, "properties": PROPS_ALL, "timeout": 900},
-            {"module": "Cloc", "cfg": "Cloc_MC_thorough.cfg", "emit": True, "sample": 6000, "properties": PROPS_ALL,
+            {"module": "Cloc", "cfg": "Cloc_MC_quick.cfg", "emit": True, "sample": 1500, "properties": PROPS_ALL, "timeout": 1800,
+             "coverage": True},
+            {"module": "Cloc", "cfg": "Cloc_MC_thorough.cfg", "emit": True, "sample": 3000, "properties": PROPS_ALL, "timeout": 3600},
+            {"module": "Cloc", "cfg": "Cloc_MC_wide.cfg", "emit": True, "sample": 2500, "properties": PROPS_ALL, "timeout": 3600},
+            {"module": "Cloc", "cfg": "Cloc_MC_top_thorough.cfg", "emit": True, "sample": 2000, "properties": PROPS_ALL,
              "timeout": 3600, "coverage": True},
-            {"module": "Cloc", "cfg": "Cloc_MC_wide.cfg", "emit": True, "sample": 5000, "properties": PROPS_ALL, "timeout": 3600},
-            {"module": "Cloc", "cfg": "Cloc_MC_top_thorough.cfg", "emit": True, "sample": 5000, "properties": PROPS_ALL,
-             "timeout": 3600, "coverage": True},
-            {"module": "Cloc", "cfg": "Cloc_MC_top_wide.cfg", "emit": True, "sample": 4000, "properties": PROPS_ALL, "timeout": 3600},
+            {"module": "Cloc", "cfg": "Cloc_MC_top_wide.cfg", "emit": True, "sample": 1500, "properties": PROPS_ALL, "timeout": 3600},
         ]
     return {
         "harness": "cloc",
         "needs_coca": True,
         "mc": mc,
         "gen": [],
-        "rand": 400 if quick else 8000,
+        "rand": 400 if quick else 3000,
         "trace": TRACE,
         "run_timeout": 6000,
     }
